@@ -71,6 +71,8 @@ type DatabaseI interface {
 type compactionAction struct {
 	pathsToCompact []string
 	totalRecords   uint64
+	// whether the oldest sstable is part of pathsToCompact, only then tombstones can be dropped safely
+	includesOldestTable bool
 }
 
 type memStoreFlushAction struct {
